@@ -161,6 +161,10 @@ pub fn run(run: &RunInfo) -> Summary {
         Some(vec![app("a0000000041010"), app("a0000003591010028001")]),
         Some(vec![None]),
         Some(vec![None, app("a0000000043060")]),
+        Some(vec![app("a0000000041010"), None]),
+        Some(vec![app("a0000000041010"), None, app("a0000003591010028001")]),
+        Some(vec![None, None]),
+        Some(vec![]),
     ];
     for u in &uids {
         replies.push(Reply::Status { uid: u.clone(), apps: None, tlv: true, rich: false });
@@ -258,7 +262,7 @@ pub fn run(run: &RunInfo) -> Summary {
         transitions: acc.get("transitions"),
         traces_validated: execs,
         distinct_nontrivial: acc.set_len("outcomes"),
-        rule: format!("real Feig::read_card (called twice) against the simulated terminal for {} replies: UID absent or of 0..=20 bytes with every count of leading zero bytes and two tail patterns (digits only / hex letters); application list absent, one entry with id, two with ids, one without id, one without followed by one with id, combined with four UIDs; status without TLV container; replies accompanied by every other field a terminal reports with a card (track data, 12-digit pre-authorisation limit, 20-digit card number, ATS/ATQA/SAK ...); all 256 abort codes; each preceded by 0, 1 and 2 intermediate statuses, every packet sent at once or 16 s after the previous one (one second inside the per-packet time-out). Oracle: the reference function of the statement; both presentations and all intermediate counts must agree", replies.len()),
+        rule: format!("real Feig::read_card (called twice) against the simulated terminal for {} replies: UID absent or of 0..=20 bytes with every count of leading zero bytes and two tail patterns (digits only / hex letters); application list absent, one entry with id, two with ids, one without id, one without followed by one with id, one with followed by one without, with / without / with, two without, empty, combined with four UIDs; status without TLV container; replies accompanied by every other field a terminal reports with a card (track data, 12-digit pre-authorisation limit, 20-digit card number, ATS/ATQA/SAK ...); all 256 abort codes; each preceded by 0, 1 and 2 intermediate statuses, every packet sent at once or 16 s after the previous one (one second inside the per-packet time-out). Oracle: the reference function of the statement; both presentations and all intermediate counts must agree", replies.len()),
         exhaustive: true,
         required_witnesses: vec![
             "replies paced one second inside the per-packet time-out".into(),
